@@ -1,0 +1,6 @@
+//go:build !verif
+
+package converter
+
+// No-op without the 'verif' build tag (see zz_verifhooks.go).
+func verifYield(point string) {}
